@@ -135,7 +135,6 @@ pub fn designs() -> Vec<Design> {
         d("p1_n1025_4levels_cyclic", cyclic(&full_factorial(&[4], 1), 1025), Skip, Few),
         d("p2_n1025_ff2x3_cyclic", cyclic(&full_factorial(&[2, 3], 1), 1025), Few, Few),
         d("p3_n1025_latin_square_cyclic", cyclic(&latin(), 1025), Skip, Few),
-        d("p1_n4097_4levels_cyclic", cyclic(&full_factorial(&[4], 1), 4097), Skip, Few),
         d("p2_n4097_ff2x3_cyclic", cyclic(&full_factorial(&[2, 3], 1), 4097), Skip, Few),
         d("p3_n4097_latin_square_cyclic", cyclic(&latin(), 4097), Skip, Few),
     ]
